@@ -453,3 +453,55 @@ def prng_groups(prefix, props, cfg="C64", tier="quick"):
                                   "VERIF_ABSTRACT_P", "VERIF_L1_SUMMARY"], functions=["ascon_random_feed"],
                             drop_unused=True, unwind=66, timeout=900, expect_classes=["assertion"]))
     return gs
+
+
+def hkdf_groups(prefix, props, cfg="C64", tier="quick"):
+    gs = []
+    for v, alg, T in ((0, "hkdf", "ascon_hkdf_state_t"), (100, "hkdfa", "ascon_hkdfa_state_t")):
+        base = ["VERIF_PLAIN", "HM_VARIANT=%d" % v, "HKDF_T=" + T, "HKDF_FN(s)=ascon_%s##s" % alg]
+        srcs = ["src/kdf/ascon-%s.c" % alg, CLEAN]
+        def G(name, defs, unwind=100):
+            gs.append(Group("%s.%s.%s.%s" % (prefix, alg, name, cfg), props, "harness/h_hkdf.c", "h_hkdf", srcs, cfg=cfg,
+                            defs=base + defs, functions=["ascon_%s%s" % (alg, "" if name.startswith("oneshot") else "_" + name.split(".")[0])],
+                            drop_unused=True, unwind=unwind, timeout=900, expect_classes=["assertion"]))
+        G("extract", ["OP_extract"])
+        posns = (0, 5, 32) if tier == "quick" else (0, 1, 5, 16, 31, 32)
+        lens = (0, 1, 27, 28, 32, 33, 60, 65, 91) if tier == "quick" else tuple(range(0, 100))
+        for p in posns:
+            for ln in lens:
+                G("expand.posn%d.len%d" % (p, ln), ["OP_expand", "VERIF_POSN=%d" % p, "VERIF_OUTLEN=%d" % ln])
+        for ln in (8161, 8192, 1 << 40):       # just above the 255-block limit, the next block boundary, far above
+            G("oneshot.refuse%d" % ln, ["OP_oneshot", "VERIF_OUTLEN=%dULL" % ln], unwind=40)
+        for ln in (0, 5, 32, 40):
+            G("oneshot.len%d" % ln, ["OP_oneshot", "VERIF_OUTLEN=%d" % ln])
+    return gs
+
+
+def cxof_kdf_groups(prefix, props, which, cfg="C64", tier="quick"):
+    """KMAC / KDF / PBKDF2 over the customised XOF (plain-assertion groups over specification stubs)."""
+    gs = []
+    xs = [("src/hash/ascon-xof.c", XOF_RENAME), ("src/hash/ascon-xofa.c", XOFA_RENAME)]
+    def G(name, srcs, defs, unwind=70, timeout=1200):
+        gs.append(Group("%s.%s.%s" % (prefix, name, cfg), props, "harness/h_cxof_kdf.c", "h_cxof_kdf",
+                        srcs + xs + [BACKEND_SRC[cfg], CLEAN], cfg=cfg,
+                        defs=["VERIF_PLAIN", "VERIF_ABSTRACT_P", "VERIF_L1_SUMMARY"] + defs, functions=[name.split(".")[0]],
+                        drop_unused=True, unwind=unwind, timeout=timeout, expect_classes=["assertion"]))
+    if "kdf" in which:
+        for va, sfx in (([], ""), (["VARIANT_A"], "a")):
+            for ol in ((0, 16, 40) if tier == "quick" else (0, 1, 16, 31, 32, 33, 40)):
+                for al in ([], ["A_LONG"]):
+                    G("ascon_kdf%s.out%d%s" % (sfx, ol, ".longkey" if al else ""), ["src/kdf/ascon-kdf%s.c" % sfx],
+                      ["OP_kdf", "VERIF_OUTLEN=%d" % ol] + va + al)
+    if "kmac" in which:
+        for va, sfx in (([], ""), (["VARIANT_A"], "a")):
+            for ol in ((16, 40) if tier == "quick" else (0, 1, 16, 31, 33, 40)):       # 32 is served from a pre-computed table (concrete group)
+                for al in ([], ["A_LONG"]):
+                    G("ascon_kmac%s.out%d%s" % (sfx, ol, ".longkey" if al else ""), ["src/mac/ascon-kmac%s.c" % sfx],
+                      ["OP_kmac", "VERIF_OUTLEN=%d" % ol] + va + al)
+    if "pbkdf2" in which:
+        for cnt in (0, 1, 2, 3):
+            for ol in ((0, 1, 32, 33) if tier == "quick" else (0, 1, 31, 32, 33, 64, 65)):
+                for al in ([],):      # the password is absorbed inside ascon-xof.c (ascon_xof_absorb_custom) by the REAL absorb loop: constant length only
+                    G("ascon_pbkdf2.count%d.out%d%s" % (cnt, ol, ".longpw" if al else ""), ["src/password/ascon-pbkdf2.c"],
+                      ["OP_pbkdf2", "VERIF_COUNT=%d" % cnt, "VERIF_OUTLEN=%d" % ol] + al, unwind=70)
+    return gs
